@@ -1,12 +1,12 @@
 SPECIFICATION Spec
 CONSTANTS
   NConn = 3
-  MaxReq = 2
+  MaxReq = 1
   MaxReq2 = 1
   Protos <- AllProtos
   TlsModes <- OnlyFalse
   MakeModes <- OnlyFalse
-  MaxFaults = 1
+  MaxFaults = 0
   AsBuiltD8 = FALSE
   GenMode = FALSE
   GenLen = 0
